@@ -106,7 +106,7 @@ class GrammarGen:
             return ("eoi",)
         if c < 0.91 and self.p.get("soi"):
             return ("soi",)
-        if c < 0.93 and self.p.get("trivia"):
+        if c < 0.93 and (self.p.get("trivia") or self.p.get("more_builtins")):
             return ("newline",)
         return ("str", r.choice(["a", "b"]))
 
@@ -810,7 +810,7 @@ def alphabet(rules: dict, extra: str = "") -> list[str]:
             elif k == "builtin":
                 chars.update({"ASCII_DIGIT": "1", "ASCII_HEX_DIGIT": "f1", "ASCII_ALPHA_UPPER": "A"}.get(n[1], "aA") if n[1] in BUILTINS else BUILTIN_CHARS[n[1]])
             elif k == "newline":
-                chars.add("\n")
+                chars.update("\n\r")
     chars.update(extra)
     if "k" in chars:
         chars.add("\u212a")  # KELVIN SIGN: Unicode case-fold partner of k
@@ -887,7 +887,7 @@ class Deriver:
         if k == "any":
             return r.choice(self.alpha)
         if k == "newline":
-            return "\n"
+            return r.choice(["\n", "\n", "\r\n", "\r"])
         if k in ("soi", "eoi", "and", "not", "drop"):
             if k == "drop" and self.stack:
                 self.stack.pop()
